@@ -44,7 +44,11 @@ def gen_cases(seed, n, feats, pk=False):
             views, sql = G.sql_query_views(q)
         else:
             sql = G.sql_query(q)
-        out.append({"db": db, "q": q, "sql": sql, "pk": pk, "views": views, "views_first": bool(i % 2)})
+        # every fourth case declares some integer columns with another width (join keys, group keys and
+        # comparisons then meet INT, BIGINT and SMALLINT values; the prescribed answer does not change)
+        coltypes = {("t2", "a"): "bigint", ("t3", "a"): "smallint", ("t1", "b"): "bigint", ("t3", "b"): "bigint"} if i % 4 == 3 else None
+        out.append({"db": db, "q": q, "sql": sql, "pk": pk, "views": views, "views_first": bool(i % 2),
+                    "coltypes": coltypes})
     return out
 
 
@@ -58,7 +62,7 @@ def to_run_cases(cases, engines=("mem", "disk"), mocks=True, split_inserts=True)
         for eng in engines:
             pk = {t: "a" for t in G.TABLES} if (c["pk"] and eng == "disk") else None
             steps = []
-            setup = G.setup_sql(c["db"], G.TABLES, pk=pk)
+            setup = G.setup_sql(c["db"], G.TABLES, pk=pk, coltypes=c.get("coltypes"))
             if c.get("inserts"):
                 # explicit layout: the case says how its rows are split into INSERTs (chunks / row-sets)
                 setup = [s for s in setup if s.startswith("create")] + list(c["inserts"])
@@ -564,6 +568,11 @@ def range_query(rnd, rows, pkcol="a"):
     present = sorted({r[kpos] for r in rows if r[kpos] is not None}) or [0]
     allkeys = [r[kpos] for r in rows if r[kpos] is not None] or [0]
     def bound():
+        b = bound_()
+        # now and then the bound is an integer of another width than the key
+        return ("widen", b, rnd.choice(["bigint", "smallint"]), G.INT) if rnd.random() < 0.2 else b
+
+    def bound_():
         if rnd.random() < 0.5:
             return ("ci", rnd.choice(allkeys))          # weighted by frequency: keys with many duplicates
         return ("ci", rnd.choice(present + [min(present) - 1, max(present) + 1, rnd.choice(range(0, 15))]))
